@@ -457,13 +457,13 @@ class StmtMixin:
         visit(fn)
         return out
 
-    def probe_writes(self, body: List[ast.stmt], st: State, extra_locals: Dict[str, Val]) -> Set[str]:
+    def probe_writes(self, body: List[ast.stmt], st: State, extra_locals: Dict[str, Val], prelude=None) -> Set[str]:
         """Execute the body once from a fully havoc'd heap to find which heap fields it can write."""
         p = st.fork()
         p.written = set()
+        p.written_cells = {}
         for f in list(p.heap.keys()):
             p.heap[f] = fresh("P_" + f, p.heap[f].sort())
-        p.written = set()
         for n in assigned_names(body):
             if n in p.locals:
                 old = p.locals[n]
@@ -473,16 +473,56 @@ class StmtMixin:
         p.pc = []
         self.probing += 1
         try:
+            if prelude is not None:
+                prelude(p)
             self.exec_block(body, p)
         finally:
             self.probing -= 1
         w = set(p.written)
+        # container / object cells written only at references that are stable across iterations (terms over entry
+        # symbols only) can be havoc'd cell-wise instead of array-wise
+        self.last_probe_cells = {}
+        for f, refs in p.written_cells.items():
+            if all(r is not None and self.term_is_stable(r) for r in refs):
+                uniq = []
+                for r in refs:
+                    if not any(r.eq(u) for u in uniq):
+                        uniq.append(r)
+                self.last_probe_cells[f] = uniq
+        if st.written_cells is not None:
+            for f, refs in p.written_cells.items():
+                st.written_cells.setdefault(f, []).extend(refs if f in self.last_probe_cells else [None])
         return w
 
-    def havoc_for_loop(self, st: State, body: List[ast.stmt], lp: Loop, extra: Dict[str, Val], skip: Set[str] = frozenset()) -> None:
-        fields = set(lp.modifies_fields) if lp.modifies_fields is not None else self.probe_writes(body, st, extra)
+    def term_is_stable(self, t) -> bool:
+        seen = set()
+        work = [t]
+        while work:
+            x = work.pop()
+            if x.get_id() in seen:
+                continue
+            seen.add(x.get_id())
+            if z3.is_const(x) and x.decl().kind() == z3.Z3_OP_UNINTERPRETED:
+                n = x.decl().name()
+                if not (n.startswith("arg_") or n.startswith("ghost_") or n == "alloc0"):
+                    return False
+            work.extend(x.children())
+        return True
+
+    def havoc_for_loop(self, st: State, body: List[ast.stmt], lp: Loop, extra: Dict[str, Val], skip: Set[str] = frozenset(), prelude=None) -> None:
+        self.last_probe_cells = {}
+        fields = set(lp.modifies_fields) if lp.modifies_fields is not None else self.probe_writes(body, st, extra, prelude)
+        cells = self.last_probe_cells
+        from .state import field_sort
+
         for f in fields:
-            st.havoc_field(f)
+            if f in cells:
+                for r in cells[f]:
+                    st.hwrite(f, r, fresh("lc_" + f, field_sort(f).range()))
+                    if f in ("$llen", "$dlen"):
+                        st.assume(st.hread(f, r) >= 0)
+            else:
+                st.havoc_field(f)
         for n in assigned_names(body):
             if n in skip:
                 continue
@@ -598,7 +638,14 @@ class StmtMixin:
         self.check_invariant(st, lp, "entry", node, {idx_name: i0})
         s = st.fork()
         skip = set()
-        self.havoc_for_loop(s, node.body, lp, {}, skip)
+
+        def prelude(p):
+            pi = fresh("pi", IntS)
+            p.assume(pi >= 0)
+            for a in self.assign(p, node.target, seq["get"](p, pi), node):
+                pass
+
+        self.havoc_for_loop(s, node.body, lp, {}, skip, prelude)
         i = fresh("i", IntS)
         iv = vint(i)
         n = seq["len"](s)
